@@ -5,7 +5,7 @@ precedence / associativity table (levels, LeftMin / RightMin) from which minimal
 derived; three enumerations: operator-pair grid, operator x operand-kind grid, type-directed trees.
 Binding A: every state is rendered (minimal and fully parenthesised token sequences, literals in a random base / form,
 arbitrary inter-token blanks) into `@print`, and for small positive integers also a constant initialiser, an array
-capacity, `@assert` and `@extent`; the printed / modelled value is compared with Eval, rejections must be
+capacity, `@assert` and `@extent`, and the response part of a service that redefines a constant of the request part; the printed / modelled value is compared with Eval, rejections must be
 InvalidDefinitionError exactly where the specification says the expression is invalid.
 """
 from __future__ import annotations
@@ -124,6 +124,9 @@ def worker(arg):
         extra = exp["t"] == "rat" and exp["d"] == 1 and 1 <= exp["n"] <= 64 and k == 0
         if extra:
             body += "uint64 X = %s\nuint8[<=%s] arr\n@assert %s == %d\n@extent (%s) * 800\n" % (text, text, text, exp["n"], text)
+            # ... and in the response part of a service, where V denotes the response's own constant of that name
+            body += "---\nuint8 V = %d\n@assert V == %s\n@assert V + 1 != %s\n@sealed\n" % (exp["n"], text, text)
+            body = "uint8 V = %d\n@assert V - 1 == %s\n" % (exp["n"] + 1, text) + body
         else:
             body += "@sealed\n"
         files = {"ns/A.1.0.dsdl": body}
@@ -150,8 +153,8 @@ def worker(arg):
         if got != spec_value(exp):
             diff.append(("value", text, prints[0][2], tlaval.to_json(exp)))
         if extra:
-            t = [x for x in res if x.short_name == "A"][0]
-            c = t.constants[0].value.native_value
+            t = [x for x in res if x.short_name == "A"][0].request_type
+            c = [k_ for k_ in t.constants if k_.name == "X"][0].value.native_value
             cap = t.fields[0].data_type.capacity
             if c != exp["n"] or cap != exp["n"] or t.extent != exp["n"] * 800:
                 diff.append(("constant / capacity / extent context", text, str(c), cap, t.extent, exp["n"]))
@@ -170,7 +173,10 @@ def extras_worker(seed):
              ("1 / 3 + 1 / 6", "1/2"), ("0.1 + 0.2 == 0.3", "true"), ("1e3", "1000"), ("1_000.5e-1", "2001/20"),
              ("0x_ff + 0b_1 + 0o_7", str(255 + 1 + 7)), ("7 % -3", "-2"), ("-7 % 3", "2"), ("-7 / 2", "-7/2"),
              ("(-6) & 5", "0"), ("(-6) | 5", "-1"), ("(-6) ^ 5", "-1"), ("6 & 3 | 8 ^ 1", str(6 & 3 | 8 ^ 1)),
-             ("{1, 2, 3}.max - {1, 2, 3}.min + {1, 2, 3}.count", "5"), ("{{1}, {1, 2}}.count", "2")]
+             ("{1, 2, 3}.max - {1, 2, 3}.min + {1, 2, 3}.count", "5"), ("{{1}, {1, 2}}.count", "2"),
+             # powers with a non-integer exponent whose value is an exactly representable rational
+             ("4 ** 0.5", "2"), ("4 ** 30.5", str(2 ** 61)), ("(1/4) ** 12.5 == 1 / 2 ** 25", "true"), ("0.25 ** 0.5", "1/2"),
+             ("16 ** 0.75", "8")]
     for text, want in cases:
         with dsdlio.Tree({"ns/A.1.0.dsdl": "@print %s\n@sealed\n" % text}, "c04x") as tr:
             status, res, prints = dsdlio.read_ns(tr.path("ns"))
